@@ -258,6 +258,14 @@ func (ex *Exec) intrinsic(fn *ssa.Function, args []Val, caller *frame) (Val, boo
 			return opaqueStr{fmt.Sprintf("quote%d", ex.opaqueN)}, true
 		}
 		return strconv.Quote(s), true
+	// byte / substring search over symbolic data: the position is an if-then-else chain over the
+	// (concrete) candidate offsets, so no path is forked
+	case "strings.Index", "strings.Contains", "internal/stringslite.Index", "strings.IndexByte", "internal/stringslite.IndexByte",
+		"internal/bytealg.IndexByteString", "bytes.Index", "bytes.Contains", "bytes.IndexByte", "internal/bytealg.IndexByte",
+		"internal/bytealg.Index", "internal/bytealg.IndexString", "internal/bytealg.Count", "internal/bytealg.CountString":
+		if r, ok := ex.symSearch(name, args); ok {
+			return r, true
+		}
 	case "bytes.Equal":
 		a, _ := args[0].([]Val)
 		b, _ := args[1].([]Val)
@@ -821,4 +829,73 @@ func (ex *Exec) formatSmallSym(i Int, signed bool) (Val, bool) {
 		return symstr{digit(tb.Bin(OpUDiv, t, tb.Const(10, w))), digit(tb.Bin(OpURem, t, tb.Const(10, w)))}, true
 	}
 	return nil, false
+}
+
+// symSearch models the search primitives when an argument holds symbolic bytes (false: all
+// concrete, or an argument form it does not know; the caller goes on to the native shortcut).
+func (ex *Exec) symSearch(name string, args []Val) (Val, bool) {
+	seq := func(v Val) ([]Int, bool) {
+		switch x := v.(type) {
+		case string, symstr:
+			return strBytes(x), true
+		case []Val:
+			out := make([]Int, len(x))
+			for i, e := range x {
+				b, ok := e.(Int)
+				if !ok {
+					return nil, false
+				}
+				out[i] = b
+			}
+			return out, true
+		case Int:
+			return []Int{x}, true
+		}
+		return nil, false
+	}
+	if len(args) != 2 {
+		return nil, false
+	}
+	h, ok1 := seq(args[0])
+	n, ok2 := seq(args[1])
+	if !ok1 || !ok2 {
+		return nil, false
+	}
+	anySym := false
+	for _, b := range h {
+		anySym = anySym || b.sym()
+	}
+	for _, b := range n {
+		anySym = anySym || b.sym()
+	}
+	if !anySym {
+		return nil, false
+	}
+	match := func(i int) Bool {
+		m := Bool{C: true}
+		for j := range n {
+			m = ex.band(m, ex.equal(h[i+j], n[j]))
+		}
+		return m
+	}
+	if strings.Contains(name, "Count") {
+		// a single byte is counted (bytealg.Count*)
+		cnt := ex.tb.Const(0, 64)
+		for i := range h {
+			cnt = ex.tb.Bin(OpAdd, cnt, ex.tb.Ite(ex.bt(match(i)), ex.tb.Const(1, 64), ex.tb.Const(0, 64)))
+		}
+		return ex.mkI(cnt), true
+	}
+	res := ex.tb.Const(^uint64(0), 64)
+	if len(n) == 0 {
+		res = ex.tb.Const(0, 64)
+	} else {
+		for i := len(h) - len(n); i >= 0; i-- {
+			res = ex.tb.Ite(ex.bt(match(i)), ex.tb.Const(uint64(i), 64), res)
+		}
+	}
+	if strings.HasSuffix(name, "Contains") {
+		return ex.mkB(ex.tb.Not(ex.tb.Eq(res, ex.tb.Const(^uint64(0), 64)))), true
+	}
+	return ex.mkI(res), true
 }
